@@ -1,5 +1,6 @@
 import Iec.Lemmas.KWindow
 import Iec.Model.Srv104
+import Iec.Model.Cli104
 /-
 C04 — CS104 k-window and acknowledgement validation.
 
@@ -85,5 +86,16 @@ example : (checkSeq 2 ([32766, 32767, 0, 1, 2].map fun n => ⟨n, 0, none⟩) 0)
     ((checkSeq 2 ([32766, 32767, 0, 1, 2].map fun n => ⟨n, 0, none⟩) 0).2.1.map (·.seq)) = [1, 2] ∧
     (checkSeq 2 ([32766, 32767, 0, 1, 2].map fun n => ⟨n, 0, none⟩) 3).1 = false ∧
     (checkSeq 2 ([32766, 32767, 0, 1, 2].map fun n => ⟨n, 0, none⟩) 32765).1 = true := by decide
+
+end Iec.Props.C04
+
+namespace Iec.Props.C04
+open Iec.KWindow
+
+/-- **client, window full**: `CS104_Connection_sendASDU` reports failure and transmits nothing -/
+theorem client_full_refuses (c : Iec.Cli104.Cli) (asdu : List Nat)
+    (hfull : isFull (c.maxSent.getD c.p.k) c.win = true) : Iec.Cli104.sendAsdu c asdu = (c, false) := by
+  unfold Iec.Cli104.sendAsdu
+  simp [hfull]
 
 end Iec.Props.C04
